@@ -731,6 +731,30 @@ func derivesOnlyFromCalls(v ssa.Value, short string, depth int) bool {
 		return len(x.Edges) > 0
 	case *ssa.Call:
 		return calleeShort(&x.Call) == short
+	case *ssa.Extract:
+		// the first result of a helper of the package whose every non-nil first result is such a value
+		call, ok := x.Tuple.(*ssa.Call)
+		if !ok || x.Index != 0 {
+			return false
+		}
+		hc := call.Call.StaticCallee()
+		if hc == nil || hc.Blocks == nil || call.Parent() == nil || hc.Package() != call.Parent().Package() {
+			return false
+		}
+		n, all := 0, true
+		eachInstr(hc, func(in ssa.Instruction) {
+			ret, ok := in.(*ssa.Return)
+			if !ok || len(ret.Results) == 0 {
+				return
+			}
+			rv := returnedValue(ret, 0, nil)
+			if cst, isC := rv.(*ssa.Const); isC && cst.Value == nil {
+				return
+			}
+			n++
+			all = all && derivesOnlyFromCalls(rv, short, depth+1)
+		})
+		return n > 0 && all
 	case *ssa.UnOp:
 		// a local that is only assigned such results
 		if al, ok := x.X.(*ssa.Alloc); ok && x.Op == token.MUL && al.Referrers() != nil {
